@@ -147,6 +147,11 @@ func (router *Router) FindRoute(req *http.Request) (*routers.Route, map[string]s
 		if pathItem == nil {
 			return nil, nil, &routers.RouteError{Reason: routers.ErrPathNotFound.Error()}
 		}
+		// PathItem.GetOperation panics on a method outside the nine OpenAPI knows:
+		// a request may carry any method (PROPFIND, lower-case get, ...)
+		if _, known := pathItem.Operations()[method]; !known {
+			return nil, nil, &routers.RouteError{Reason: routers.ErrMethodNotAllowed.Error()}
+		}
 		if pathItem.GetOperation(method) == nil {
 			return nil, nil, &routers.RouteError{Reason: routers.ErrMethodNotAllowed.Error()}
 		}
